@@ -544,7 +544,7 @@ func (e *c16env) exec(dir, tool string, args []string) c16proc {
 
 func (e *c16env) exec1(dir, tool string, args []string) c16proc {
 	atomic.AddInt64(&e.procs, 1)
-	ctx, cancel := context.WithTimeout(context.Background(), 120*time.Second)
+	ctx, cancel := context.WithTimeout(context.Background(), 300*time.Second)
 	defer cancel()
 	cmd := exec.CommandContext(ctx, filepath.Join(e.bin, tool), args...)
 	cmd.Dir = dir
@@ -722,7 +722,7 @@ func (e *c16env) evalGrep(c c16case) c16verdict {
 	v := c16verdict{Ran: true, NonTriv: nT > 0 && nF > 0}
 	cmdline := "obigrep " + strings.Join(args, " ")
 	if p.timedOut {
-		v.Class, v.Desc = "hang", cmdline+": no exit within 120 s"
+		v.Class, v.Desc = "hang", cmdline+": no exit within 300 s"
 		return v
 	}
 	if p.err != nil {
@@ -1027,7 +1027,7 @@ func (e *c16env) evalAnnot(c c16case) c16verdict {
 	v := c16verdict{Ran: true, NonTriv: len(edits) > 0}
 	cmdline := "obiannotate " + strings.Join(args, " ")
 	if p.timedOut {
-		v.Class, v.Desc = "hang", cmdline+": no exit within 120 s"
+		v.Class, v.Desc = "hang", cmdline+": no exit within 300 s"
 		return v
 	}
 	if p.err != nil {
@@ -1179,7 +1179,7 @@ func (e *c16env) evalDist(c c16case) c16verdict {
 		p := e.exec(dir, "obidistribute", args)
 		cmdline := "obidistribute " + strings.Join(args, " ")
 		if p.timedOut {
-			v.Class, v.Desc = "hang", cmdline+": no exit within 120 s"
+			v.Class, v.Desc = "hang", cmdline+": no exit within 300 s"
 			return v
 		}
 		if p.err != nil {
@@ -1287,10 +1287,10 @@ func c16mxReads() []c16rec {
 	seqs := []string{
 		amp(t1, bc, t1),
 		amp(t2, bc+"a", t2),
-		amp("ccccccc", bc, "ccccccc"), // unknown tags
+		amp("ccccccc", bc, "ccccccc"),                  // unknown tags
 		"acgtacgtacgtacgtacgtacgtacgtacgtacgtacgtacgt", // no primer
-		c16rc(amp(t1, bc+"cc", t1)),                     // other strand
-		amp(t1, bc, t2),                                 // tags of two different samples
+		c16rc(amp(t1, bc+"cc", t1)),                    // other strand
+		amp(t1, bc, t2),                                // tags of two different samples
 		amp(t2, bc+"gg", t2),
 		t1 + fp + bc, // forward primer only
 		amp(t1, bc+"t", t1),
@@ -1329,7 +1329,7 @@ func (e *c16env) evalMultiplex(c c16case) c16verdict {
 		p := e.exec(dir, "obimultiplex", args)
 		cmdline := "obimultiplex " + strings.Join(args, " ")
 		if p.timedOut {
-			v.Class, v.Desc = "hang", cmdline+": no exit within 120 s"
+			v.Class, v.Desc = "hang", cmdline+": no exit within 300 s"
 			return v
 		}
 		if p.err != nil {
